@@ -11,6 +11,7 @@ import (
 	"sort"
 	"strings"
 	"sync"
+	"sync/atomic"
 
 	"ariga.io/atlas/sql/schema"
 	"verifharness/rt"
@@ -110,6 +111,8 @@ func replay(c *rt.Ctx, raw json.RawMessage) {
 
 // ---------------------------------------------------------------------------------------------
 
+var exclSamples int32
+
 func countExcl(c *rt.Ctx, cs ExclCase, res exclResult) {
 	c.Count("excl:scope:"+cs.Scope, 1)
 	for _, k := range res.Excluded {
@@ -148,7 +151,7 @@ func recordExcl(c *rt.Ctx, cs ExclCase, res exclResult) {
 	if len(res.All) > 0 {
 		return
 	}
-	if c.WantSample() && len(res.Excluded) > 1 && len(cs.Pats) > 1 && res.Gone < res.Total/2 {
+	if c.WantSample() && len(res.Excluded) > 1 && len(cs.Pats) > 1 && res.Gone < res.Total/2 && atomic.AddInt32(&exclSamples, 1) <= 2 {
 		c.Sample(map[string]any{"kind": "excl", "scope": cs.Scope, "schema": cs.Schema, "patterns": cs.Pats, "excluded": res.Excluded,
 			"resources": res.Total, "gone_with_descendants": res.Gone, "verdict": "held"})
 	}
@@ -400,27 +403,32 @@ func run(c *rt.Ctx) {
 					"filtered": res.Want, "verdict": "held"})
 			}
 		}
-		// probe (no verdict): kinds the project file cannot disable
+		// kinds the project file cannot disable, judged at the API boundary as singletons (rich pair only)
 		if u.n == 0 {
 			for _, k := range apiOnlyKinds {
 				kn := kindOf(k)
-				full, e1 := diffOnce(p, u.dia, u.scope, nil, false)
-				got, e2 := diffOnce(p, u.dia, u.scope, []string{kn}, false)
+				cs := base
+				cs.Kinds = []string{kn}
+				var full, got []schema.Change
+				var e1, e2 error
+				if pn, val, st := rt.Try(func() {
+					full, e1 = diffOnce(p, u.dia, u.scope, nil, false)
+					got, e2 = diffOnce(p, u.dia, u.scope, cs.Kinds, false)
+				}); pn {
+					c.Violation("skip|"+rt.PanicKey(st), fmt.Sprintf("panic: %v", val), cs, map[string]any{"stack": st})
+					continue
+				}
 				if e1 != nil || e2 != nil {
 					continue
 				}
-				present := false
-				for _, e := range entries(full, "", "top", nil) {
-					present = present || e.Kind == kn
+				res := judgeSkip(full, got, cs.Kinds)
+				if res.Skipped == 0 {
+					continue // the kind does not occur in this diff
 				}
-				if !present {
-					continue
-				}
-				c.OOD("api-only-kind-probe")
-				if r := judgeSkip(full, got, []string{kn}); r.Why != "" {
-					c.Count("skip:api-only-kind-not-honoured:"+kn, 1)
-				} else {
-					c.Count("skip:api-only-kind-honoured:"+kn, 1)
+				c.Count("skip-api:judged:"+kn, 1)
+				c.Eval(rt.Digest("api", u.dia, u.scope, kn, res.Want), true)
+				if res.Why != "" {
+					c.Violation(apiKey(res.Key), res.Why, cs, map[string]any{"want": res.Want, "have": res.Have})
 				}
 			}
 		}
@@ -481,3 +489,19 @@ func sizeClass(n int) string {
 }
 
 var _ = rand.IntN
+
+// apiKey maps a verdict key of an API-only kind to its class: changes produced by the drivers'
+// TableAttrDiff / SchemaAttrDiff (checks and attributes) share one root cause each.
+func apiKey(key string) string {
+	f := strings.Split(key, "|") // skip|leak|Kind|Level
+	if len(f) == 4 && f[1] == "leak" {
+		switch f[2] {
+		case "AddCheck", "DropCheck", "ModifyCheck", "AddAttr", "DropAttr", "ModifyAttr":
+			if f[3] == "ModifySchema" {
+				return "skip-api|leak|schema-attribute-change"
+			}
+			return "skip-api|leak|table-attribute-or-check-change"
+		}
+	}
+	return "skip-api|" + strings.TrimPrefix(key, "skip|")
+}
